@@ -314,8 +314,9 @@ def r18_d(ctx):
             return e.id in derived
         if _is_super_call(e, {'__getitem__'}):
             return len(e.args) == 1 and isinstance(e.args[0], ast.Name) and e.args[0].id == kp
-        if isinstance(e, ast.Call) and norm(e.func) in ('TexArgs', 'type(self)', 'self.__class__') and len(e.args) == 1:
-            return from_list(e.args[0])
+        if isinstance(e, ast.Call) and norm(e.func) in ('TexArgs', 'type(self)', 'self.__class__') \
+                and len(e.args) + len(e.keywords) == 1 and all(k.arg == 'args' for k in e.keywords):
+            return from_list(e.args[0] if e.args else e.keywords[0].value)
         if isinstance(e, ast.IfExp):
             return from_list(e.body) and from_list(e.orelse)
         return False
